@@ -64,6 +64,7 @@ var proxyInstalled bool
 // freshState makes the library forget everything it may remember from earlier
 // calls: an empty type cache and flushed sync.Pools (two GCs: pool + victim).
 func freshState() {
+	resetCustomWords()
 	for k := range rmSlots {
 		delete(rmSlots, k)
 	}
